@@ -1,8 +1,9 @@
 import MesaModel.Proofs.Computed
+import MesaModel.Proofs.ComputedCycle
 /-!
 # C17 — a Computable is never stale and recomputes only when an input changed
 
-Property theorems only (model: `Model/Computed.lean`, helper lemmas: `Proofs/Computed.lean`).
+Property theorems only (model: `Model/Computed.lean`, helper lemmas: `Proofs/Computed.lean`, `Proofs/ComputedCycle.lean`).
 
 `init decls progs`: owners with their declared Observables / Computables, every Observable holding 0, and the
 Computables that user handler `h` reads while it is being notified (`progs h`).  Operations: `define` (assign
@@ -89,7 +90,120 @@ theorem C17_cached_read_is_free {decls : Nat → List Decl} (hd : DeclsOK decls)
   refine ⟨v, hv, ?_⟩
   simp [step, exec, stepF, getC, hx, callC, hc, hv, g.cur]
 
-/-! ### cycles -/
+/-! ### cycles
+
+`TSteps rec t s t' s'` (`Proofs/ComputedCycle.lean`): evaluating the function `t` from state `s` executes some of its
+nodes — reads of Observables, reads of Computables, assignments, each with everything it triggers (pre-checks, nested
+evaluations, notification cascades, user handlers), each returning normally — and arrives at the rest `t'` in state
+`s'`.  `Computed.__call__` runs a function with `CURRENT_COMPUTED = p` and `EVALUATION_DEPTH > 0` (`evalBody`). -/
+
+/-- **Cycle rejection** (G10 repaired).  Inside an evaluation on behalf of a Computed `p`, in *any* state: if the
+    function reads the Observable `k` and its execution later — after any further reads, reads of Computables
+    (cached, re-validated or re-evaluated, whatever their functions and the notified handlers do) and completed
+    assignments — arrives at an assignment to `k`, then the evaluation raises `ValueError` at that very assignment:
+    the assignment is not performed, no value is returned, nothing loops. -/
+theorem C17_cycle_rejected (f p : Nat) (k : Key) (cont : Int → Tree) (s : St) (hcur : s.cur = some p)
+    (hdepth : 0 < s.depth) {v : Int} {next : Tree} {s' : St}
+    (path : TSteps (exec (f + 1)) (.read k cont) s (.write k v next) s') :
+    evalTree (exec (f + 1)) (.read k cont) s = some (s', .err .value) := by
+  rw [evalTree_tsteps path]
+  cases path with
+  | head h hs =>
+    cases h with
+    | readTop _ _ hc => rw [hcur] at hc; cases hc
+    | read _ _ hc ha =>
+      rename_i s1 _ _
+      obtain ⟨c1, d1, _⟩ := addParent_ctx ha
+      have i2 : Inside p k { s1 with proc := k :: s1.proc } :=
+        ⟨c1.trans hcur, by show 0 < s1.depth; rw [d1]; exact hdepth, List.mem_cons_self⟩
+      exact write_inside (i2.of_frame (hs.frame (exec_frame (f + 1)))) f v next
+
+/-- whatever values it reads, the function arrives at an assignment to `k` -/
+inductive AlwaysWrites (k : Key) : Tree → Prop
+  | write (v : Int) (next : Tree) : AlwaysWrites k (.write k v next)
+  | other (k' : Key) (v : Int) (next : Tree) (h : AlwaysWrites k next) : AlwaysWrites k (.write k' v next)
+  | read (k' : Key) (cont : Int → Tree) (h : ∀ x, AlwaysWrites k (cont x)) : AlwaysWrites k (.read k' cont)
+  | readC (c : Nat) (cont : Int → Tree) (h : ∀ x, AlwaysWrites k (cont x)) : AlwaysWrites k (.readC c cont)
+
+/-- … and with no hypothesis about the execution: a function that reads `k` and then, along every branch, gets to
+    an assignment to `k` never returns a value — for every state, every fuel, whatever the Computables it reads and
+    the handlers it triggers do (they may raise or not terminate; they cannot make the cycle pass). -/
+theorem C17_cycle_never_returns (fuel p : Nat) (k : Key) (cont : Int → Tree) (s : St) (hcur : s.cur = some p)
+    (hdepth : 0 < s.depth) (hw : ∀ x, AlwaysWrites k (cont x)) {s' : St} {r : R}
+    (h : evalTree (exec fuel) (.read k cont) s = some (s', r)) : ∃ e, r = .err e := by
+  have key : ∀ t, AlwaysWrites k t → ∀ s s' r, Inside p k s → evalTree (exec fuel) t s = some (s', r) → ∃ e, r = .err e := by
+    intro t ht
+    induction ht with
+    | write v next =>
+      intro s s' r i h
+      cases fuel with
+      | zero => simp [evalTree, exec] at h
+      | succ f =>
+        rw [write_inside i f v next] at h
+        injection h with h; injection h with _ h2
+        exact ⟨_, h2.symm⟩
+    | other k' v next _ ih =>
+      intro s s' r i h
+      simp only [evalTree] at h
+      cases hg : exec fuel (.assign k' v) s with
+      | none => simp [hg] at h
+      | some res =>
+        obtain ⟨s1, r1⟩ := res
+        rw [hg] at h
+        cases r1 with
+        | err e =>
+          simp only at h
+          injection h with h; injection h with _ h2
+          exact ⟨_, h2.symm⟩
+        | ok u =>
+          simp only at h
+          exact ih s1 s' r (i.of_frame (exec_frame fuel _ _ _ _ hg)) h
+    | read k' cont _ ih =>
+      intro s s' r i h
+      simp only [evalTree, i.cur] at h
+      cases ha : addParent s p (.obs k') (s.store k') with | mk s1 r1 =>
+      rw [ha] at h
+      obtain ⟨c1, d1, p1⟩ := addParent_ctx ha
+      cases r1 with
+      | err e =>
+        simp only at h
+        injection h with h; injection h with _ h2
+        exact ⟨_, h2.symm⟩
+      | ok u =>
+        simp only at h
+        refine ih _ { s1 with proc := k' :: s1.proc } s' r
+          ⟨c1.trans i.cur, by show 0 < s1.depth; rw [d1]; exact i.depth, ?_⟩ h
+        show k ∈ k' :: s1.proc
+        rw [p1]; exact List.mem_cons_of_mem _ i.mem
+    | readC c cont _ ih =>
+      intro s s' r i h
+      simp only [evalTree] at h
+      cases hg : exec fuel (.readC c) s with
+      | none => simp [hg] at h
+      | some res =>
+        obtain ⟨s1, r1⟩ := res
+        rw [hg] at h
+        cases r1 with
+        | err e =>
+          simp only at h
+          injection h with h; injection h with _ h2
+          exact ⟨_, h2.symm⟩
+        | ok u =>
+          simp only at h
+          exact ih _ s1 s' r (i.of_frame (exec_frame fuel _ _ _ _ hg)) h
+  simp only [evalTree, hcur] at h
+  cases ha : addParent s p (.obs k) (s.store k) with | mk s1 r1 =>
+  rw [ha] at h
+  obtain ⟨c1, d1, _⟩ := addParent_ctx ha
+  cases r1 with
+  | err e =>
+    simp only at h
+    injection h with h; injection h with _ h2
+    exact ⟨_, h2.symm⟩
+  | ok u =>
+    simp only at h
+    exact key _ (hw _) { s1 with proc := k :: s1.proc } s' r
+      ⟨c1.trans hcur, by show 0 < s1.depth; rw [d1]; exact hdepth, List.mem_cons_self⟩ h
 
 /-- along the path the function takes in the store `σ`: reads of Observables, then an assignment to `k` -/
 inductive ReadsThenWrites (σ : Key → Int) (k : Key) : Tree → Prop
@@ -126,10 +240,9 @@ theorem evalTree_cycle (f p : Nat) (k : Key) : ∀ (t : Tree) (s : St), ReadsThe
       exact ih { s1 with proc := k' :: s1.proc } (by simpa [h1] using hσ) (by simpa [h2] using hcur)
         (by simp only [List.contains_cons, h3, hproc, Bool.or_true])
 
-/-- **Cycle rejection** (partial: the function reads `k` and then, after reading other Observables only,
-    assigns `k`; see `G10` for what the full statement would need).  Evaluating such a function — whatever
-    the state — raises instead of looping or returning: it never runs out of fuel and never succeeds. -/
-theorem C17_cycle_rejected_partial (f p : Nat) (k : Key) (cont : Int → Tree) (s : St) (hcur : s.cur = some p)
+/-- The direct cycle (the function reads `k`, reads other Observables, assigns `k`) needs no hypothesis about the
+    execution at all: evaluating it — whatever the state — always ends, with an exception. -/
+theorem C17_cycle_rejected_direct (f p : Nat) (k : Key) (cont : Int → Tree) (s : St) (hcur : s.cur = some p)
     (h : ReadsThenWrites s.store k (cont (s.store k))) :
     ∃ s' e, evalTree (exec (f + 1)) (.read k cont) s = some (s', .err e) := by
   simp only [evalTree, hcur]
@@ -148,7 +261,20 @@ theorem C17_cycle_rejected_partial (f p : Nat) (k : Key) (cont : Int → Tree) (
     exact evalTree_cycle f p k _ { s1 with proc := k :: s1.proc } (by simpa [hfields.1] using h)
       (by simpa [hfields.2] using hcur) (by simp)
 
-/-! ### the full statements and their refutations (open findings G7, G10) -/
+/-- nothing is evaluating and nothing is on record as read -/
+def Idle (s : St) : Prop := s.cur = none ∧ s.depth = 0 ∧ s.proc = []
+
+/-- **The record of what was read lives exactly as long as the outermost evaluation**: between top-level
+    operations — whether they returned or raised — nothing is evaluating and `PROCESSING_SIGNALS` is empty, so an
+    evaluation is only ever rejected for what was read during that same outermost evaluation. -/
+theorem C17_cycle_record_per_evaluation (decls : Nat → List Decl) (progs : Nat → List Nat) :
+    Idle (init decls progs) ∧
+    ∀ (fuel : Nat) (s s' : St) (op : Op) (r : R), Idle s → step fuel s op = some (s', r) → Idle s' := by
+  refine ⟨⟨rfl, rfl, rfl⟩, fun fuel s s' op r ⟨h1, h2, h3⟩ h => ?_⟩
+  have f := step_frame fuel h
+  exact ⟨f.cur.trans h1, f.depth.trans h2, f.idle h2 h1 h3⟩
+
+/-! ### the full statement of `no_stale` and its refutation (open finding G7) -/
 
 def runOps (fuel : Nat) : St → List Op → Option (St × List R)
   | s, [] => some (s, [])
@@ -193,20 +319,61 @@ theorem C17_no_stale_refuted_with_reading_handler :
 example : (runOps 30 (init exDecls fun _ => []) g7ops).map (·.2) = some [.ok 0, .ok 0, .ok 0, .ok 70] := by
   decide +kernel
 
-/-- **G10 (open): the full `cycle_rejected` — any function that assigns an Observable it read — is false**:
-    `f = (read x; p := 1; x := 1; return 0)` is evaluated without error, because the assignment to `p`
-    cleared `PROCESSING_SIGNALS`. -/
-theorem C17_cycle_rejected_refuted_after_intermediate_write :
-    (step 30 (init (fun o => if o = 0 then [⟨0, .obs, [.change]⟩, ⟨1, .obs, [.change]⟩, ⟨2, .comp, [.change]⟩] else [])
-        fun _ => [])
-      (.define 0 0 2 (.read (0, 0) fun _ => .write (0, 1) 1 (.write (0, 0) 1 (.ret 0))))).map (·.2) = some (.ok 0) := by
+/-! ### cycles: non-vacuity -/
+
+def cyDecls : Nat → List Decl :=
+  fun o => if o = 0 then [⟨0, .obs, [.change]⟩, ⟨1, .obs, [.change]⟩, ⟨2, .comp, [.change]⟩, ⟨3, .comp, [.change]⟩] else []
+/-- `f = (read x; p := 1; x := 1; return 0)`: the witness of G10 -/
+def cyTree : Tree := .read (0, 0) fun _ => .write (0, 1) 1 (.write (0, 0) 1 (.ret 0))
+
+/-- the G10 witness is rejected now (it was evaluated without error: the assignment to `p` cleared the record) … -/
+example : (step 30 (init cyDecls fun _ => []) (.define 0 0 2 cyTree)).map (·.2) = some (.err .value) := by
   decide +kernel
 
-/-- … while the direct cycle is rejected (non-vacuity of `C17_cycle_rejected_partial`) -/
+/-- … so is the direct cycle, and a cycle with a nested evaluation between the read and the assignment
+    (`c0 = p`, `c1 = (read x; read c0; x := 1)`, `c0` dirty and changed when `c1` reads it) -/
 example :
-    (step 30 (init (fun o => if o = 0 then [⟨0, .obs, [.change]⟩, ⟨2, .comp, [.change]⟩] else []) fun _ => [])
-      (.define 0 0 2 (.read (0, 0) fun _ => .write (0, 0) 1 (.ret 0)))).map (·.2) = some (.err .value) := by
+    (step 30 (init cyDecls fun _ => []) (.define 0 0 2 (.read (0, 0) fun _ => .write (0, 0) 1 (.ret 0)))).map (·.2) =
+      some (.err .value) := by
   decide +kernel
+
+example : (runOps 40 (init cyDecls fun _ => [])
+    [.define 0 0 2 (.read (0, 1) fun x => .ret x), .assign (0, 1) 5,
+     .define 1 0 3 (.read (0, 0) fun _ => .readC 0 fun _ => .write (0, 0) 1 (.ret 0))]).map (·.2) =
+    some [.ok 0, .ok 0, .err .value] := by decide +kernel
+
+/-- no false rejection: `c0 = x` is evaluated, afterwards the function of `c1` assigns `x` without reading it
+    (before the repair the read of the *earlier* evaluation was still on record and `c1` was rejected) -/
+example : (runOps 40 (init cyDecls fun _ => [])
+    [.define 0 0 2 (.read (0, 0) fun x => .ret x), .define 1 0 3 (.write (0, 0) 5 (.ret 1)), .read 0]).map (·.2) =
+    some [.ok 0, .ok 1, .ok 5] := by decide +kernel
+
+/-- a state inside the evaluation of Computed 0 -/
+def cySt : St :=
+  { (init cyDecls fun _ => []).setComp 0 { owner := 0, name := 2, tree := cyTree } with cur := some 0, depth := 1 }
+
+/-- non-vacuity of `C17_cycle_rejected`: the path of the G10 witness — read `x`, assign `p` (completed), arrive at the
+    assignment to `x` — exists -/
+example : ∃ s', TSteps (exec 30) cyTree cySt (.write (0, 0) 1 (.ret 0)) s' := by
+  have h1 : (addParent cySt 0 (.obs (0, 0)) (cySt.store (0, 0))).2 = .ok 0 := by decide +kernel
+  have hr : TStep (exec 30) cyTree cySt (.write (0, 1) 1 (.write (0, 0) 1 (.ret 0)))
+      { (addParent cySt 0 (.obs (0, 0)) (cySt.store (0, 0))).1 with
+        proc := (0, 0) :: (addParent cySt 0 (.obs (0, 0)) (cySt.store (0, 0))).1.proc } :=
+    TStep.read (u := 0) (0, 0) _ rfl (Prod.ext rfl h1)
+  have h2 : ((exec 30 (.assign (0, 1) 1) { (addParent cySt 0 (.obs (0, 0)) (cySt.store (0, 0))).1 with
+        proc := (0, 0) :: (addParent cySt 0 (.obs (0, 0)) (cySt.store (0, 0))).1.proc }).map (·.2)) = some (.ok 0) := by
+    decide +kernel
+  cases hs : exec 30 (.assign (0, 1) 1) { (addParent cySt 0 (.obs (0, 0)) (cySt.store (0, 0))).1 with
+        proc := (0, 0) :: (addParent cySt 0 (.obs (0, 0)) (cySt.store (0, 0))).1.proc } with
+  | none => rw [hs] at h2; cases h2
+  | some res =>
+    obtain ⟨s3, r3⟩ := res
+    rw [hs] at h2; simp only [Option.map_some, Option.some.injEq] at h2; subst h2
+    exact ⟨s3, .head hr (.head (.write (0, 1) 1 _ hs) (.refl _ _))⟩
+
+/-- non-vacuity of `C17_cycle_never_returns` -/
+example : ∀ x : Int, AlwaysWrites (0, 0) ((fun _ => Tree.write (0, 1) 1 (.write (0, 0) 1 (.ret 0))) x) :=
+  fun _ => .other _ _ _ (.write _ _)
 
 /-- non-vacuity: the G8 chain (`c0 = x`, `c1 = if flag then 10*c0 else 0`) — every read is fresh and the second
     read of an unchanged chain is served from the cache -/
